@@ -352,6 +352,12 @@ def run_hist_engine(ctx, spec):
     if ctx.pid == "C15":
         for v in (s["stats"].get("IdViolations") or [])[:5]:
             ctx.violation("ids", "change stream: " + v, data={"engine": "hist", "profile": spec["profile"], "seed": seed, "case": 0})
+    if ctx.pid in ("C01", "C04"):
+        for case, notes in (s.get("notes") or {}).items():
+            for nte in notes:
+                if nte.startswith("AltRead:") and (("Range visited" in nte) == (ctx.pid == "C04")):
+                    ctx.violation("altread", "two ways of reading the same state disagree: " + nte[9:] + f"  (profile={spec['profile']} seed={seed} case={case})",
+                                  data={"engine": "hist", "profile": spec["profile"], "seed": seed, "case": int(case), "history": vlib.case_text(s["shards"], int(case)) or ""})
     if ctx.pid == "C07":
         for case, notes in (s.get("notes") or {}).items():
             for nte in notes:
